@@ -15,7 +15,12 @@ RULE = ('family = one generated pipeline containing at least one random stage '
         'its own generator) at any depth among map / slice / batch / filter / sort / '
         'concatenate stages, every generator explicitly seeded. Variants: two '
         'independent equal-seeded builds, copy() of a fresh build, copy(freeze=True), '
-        'the build behind prefetch(1, b) and behind prefetch(w, b) (thread simulator). '
+        'the build behind prefetch(1, b) and behind prefetch(w, b) (thread simulator), a '
+        'build that keeps being iterated together with a frozen copy taken from it; in '
+        'half of the pipelines with two random stages one generator object is shared by '
+        'all of them; lazy apply functions that make a one-time shuffle or add a per-epoch '
+        'reshuffle. Every 10th family instead builds one instance of every Dataset '
+        'subclass with non-default parameters and compares vars() of it and its copy. '
         'The next() calls / epochs of all variants are interleaved by a seeded '
         'operation list with an adversary that reseeds or advances the global numpy '
         'state between any two steps. Oracle: epoch e of all variants equal; frozen '
